@@ -102,7 +102,7 @@ PINNED = {
     ("CSSSerializer", "do_CSSStyleSheet"): "83faa9c9b2cd85f0",
     ("CSSSerializer", "do_CSSComment"): "e51caa764d107b70",
     ("CSSSerializer", "do_CSSMediaRule"): "0ef2be1ede8f31c9",
-    ("CSSSerializer", "do_CSSUnknownRule"): "afc9dc8bc7188a66",
+    ("CSSSerializer", "do_CSSUnknownRule"): "54f0e3b418b1f3b9",
     ("CSSSerializer", "do_CSSStyleRule"): "6a4bce88a300779a",
     ("CSSSerializer", "do_css_CSSStyleDeclaration"): "7943aa506d634aa6",
     ("CSSSerializer", "do_Property"): "722a5d90cf13576f",
